@@ -150,6 +150,26 @@ def compare(binary, cases, tag="ack"):
             elif r >= 2:
                 stats["ready"] += 1
         completer_steps = sum(1 for t, e in rec["executed"] if t == 0 and e == 1)
+        # "the task that most recently polled before completion is woken": replay the executed steps to find which waker
+        # was registered last before the completer's wake step
+        waker_of = dict(c["pollers"])
+        steps_done = {}
+        last_registered = None
+        expected_wake = None
+        cdone = 0
+        for tid, e in rec["executed"]:
+            if e != 1:
+                continue
+            if tid == 0:
+                cdone += 1
+                if cdone == 3:
+                    expected_wake = last_registered
+            else:
+                steps_done[tid] = steps_done.get(tid, 0) + 1
+                if steps_done[tid] == 2:
+                    last_registered = waker_of[tid]
+        if completer_steps >= 3 and expected_wake is not None and wakes != [expected_wake]:
+            fails.append(dict(signature="stale-waker-woken", what="done() woke %s but the waker registered most recently before completion was %d" % (wakes, expected_wake), case=c, impl=rec))
         if completer_steps >= 3:
             if len(wakes) > 1:
                 fails.append(dict(signature="woken-twice", what="the completer woke more than once", case=c, impl=rec))
